@@ -73,6 +73,33 @@ def run(repo, rep, tier):
     # not reached -- its cached evaluation sits below the not-cancelled guard
     from . import c01
     L.borrow(repo, rep, "R19.5", "C01", c01.order, ("kind:case",))
+    # non-strict mode defers what the handler of ExpressionError catches:
+    # every TemplateError class raised by the expression layer (tales.py,
+    # the expression parser) has to BE an ExpressionError
+    ee = repo.cls("chameleon.exc.ExpressionError")
+    te = repo.cls("chameleon.exc.TemplateError")
+    raised = {}
+    for q_, fn_ in sorted(repo.funcs.items()):
+        if fn_.module.name != "chameleon.tales":
+            continue
+        for n_ in ast.walk(fn_.node):
+            if isinstance(n_, ast.Raise) and isinstance(n_.exc, ast.Call):
+                r_ = repo.resolve_attr(fn_.module, n_.exc.func)
+                if r_ and r_[0] == "class":
+                    own_, ext_ = L.class_closure(repo, r_[1])
+                    if te.qualname in own_:
+                        raised[r_[1].qualname] = (ee.qualname in own_,
+                                                  fn_, n_.lineno)
+    if len(raised) < 2:
+        raise AnalysisError("template errors raised in tales.py: %s"
+                            % sorted(raised))
+    for cq, (is_ee, fn_, ln_) in sorted(raised.items()):
+        rep.check(is_ee, "R19.2", cq, "a template error raised while an "
+                  "expression is compiled is an ExpressionError (the class "
+                  "the non-strict handler defers)",
+                  construct="expression-layer-raises:" + cq.split(".")[-1],
+                  where=L.where(fn_, ln_))
+    L.state_rule(repo, rep)
 
 
 def _consumer(repo, rep):
